@@ -224,6 +224,7 @@ struct Session {
     tag: String,
     private_dirs: Vec<PathBuf>,
     vars: Map<String, Value>,
+    names: Vec<String>,    // preference names used by prefs_hash / prefs_all (set by def_names)
     ids: Vec<String>,      // ids of the MathML returned by the last successful set_mathml, in document order
     old_ids: Vec<String>,  // ids of the one before
 }
@@ -262,6 +263,7 @@ impl Session {
             tag: tag.to_string(),
             private_dirs: Vec::new(),
             vars: Map::new(),
+            names: Vec::new(),
             ids: Vec::new(),
             old_ids: Vec::new(),
         }
@@ -334,6 +336,36 @@ impl Session {
                         Err(_) => Value::Null,
                     };
                     m.insert(n, v);
+                }
+                res_ok(Value::Object(m))
+            }
+            "def_names" => {
+                self.names = op["names"].as_array().cloned().unwrap_or_default().iter()
+                    .map(|n| n.as_str().unwrap_or("").to_string()).collect();
+                res_ok(Value::Null)
+            }
+            // the complete preference assignment as read back through the public getter, as a short fingerprint
+            "prefs_hash" => {
+                use std::hash::{Hash, Hasher};
+                let mut h = std::collections::hash_map::DefaultHasher::new();
+                for n in &self.names {
+                    n.hash(&mut h);
+                    match get_preference(n.clone()) {
+                        Ok(v) => v.hash(&mut h),
+                        Err(_) => "\u{0}none".hash(&mut h),
+                    }
+                }
+                res_ok(Value::String(format!("{:016x}", h.finish())))
+            }
+            // ... and in full: name -> value | null
+            "prefs_all" => {
+                let mut m = Map::new();
+                for n in &self.names {
+                    let v = match get_preference(n.clone()) {
+                        Ok(v) => Value::String(v),
+                        Err(_) => Value::Null,
+                    };
+                    m.insert(n.clone(), v);
                 }
                 res_ok(Value::Object(m))
             }
